@@ -287,6 +287,28 @@ def catalogue(nix, np):
     df_fault("rows_unconvertible", col_dict=OrderedDict([("a", int)]), data=[("x",)])
     df_fault("names_dtypes_length_mismatch", col_names=["a", "b"], col_dtypes=[int])
     df_fault("unsupported_column_type", col_dict=OrderedDict([("a", dict)]))
+    # ---- whole numbers outside the range of the element type (NumPy refuses them with OverflowError, an ArithmeticError) ----
+    df_fault("cell_beyond_int64", col_dict=OrderedDict([("a", nix.DataType.Int64), ("b", str)]), data=[(1, "x"), (2 ** 63, "y")])
+    df_fault("cell_beyond_int8", col_dict=OrderedDict([("a", np.int8)]), data=[(300,)])
+    df_fault("negative_cell_in_unsigned_column", col_dict=OrderedDict([("a", np.uint64)]), data=[(-1,)])
+    df_fault("cell_beyond_double", col_dict=OrderedDict([("a", nix.DataType.Double)]), data=[(10 ** 400,)])
+    add("DataFrame.append_rows", "cell_beyond_int64", lambda T: T["df"].append_rows([tuple(2 ** 63 if isinstance(c, (int, np.integer)) and not isinstance(c, (bool, np.bool_)) else c for c in tuple(T["df"][0]))]))
+    add("DataFrame.write_cell", "cell_beyond_int64", lambda T: T["df"].write_cell(2 ** 64, position=(0, [i for i, c in enumerate(tuple(T["df"][0])) if isinstance(c, (int, np.integer)) and not isinstance(c, (bool, np.bool_))][0])))
+    add("Block.create_data_array", "value_beyond_int8", lambda T: T["b"].create_data_array("ovf_i8", "t", dtype=np.int8, data=[1, 300]), lambda T: T["b"].create_data_array("ovf_i8", "t", data=[1.0]))
+    add("Block.create_data_array", "value_beyond_double", lambda T: T["b"].create_data_array("ovf_f8", "t", dtype=np.float64, data=[1, 10 ** 400]), lambda T: T["b"].create_data_array("ovf_f8", "t", data=[1.0]))
+    add("Block.create_tag", "position_beyond_double", lambda T: T["b"].create_tag("ovf_pos", "t", [1.0, 10 ** 400]), lambda T: T["b"].create_tag("ovf_pos", "t", [1.0]))
+    add("Tag.position", "beyond_double", lambda T: setattr(T["tag"], "position", [10 ** 400]))
+    add("Tag.extent", "beyond_double", lambda T: setattr(T["tag"], "extent", [10 ** 400]))
+    add("RangeDimension.ticks", "beyond_double", lambda T: setattr(rdim(T), "ticks", [1.0, 10 ** 400]))
+    add("RangeDimension.ticks", "whole_numbers_beyond_double", lambda T: setattr(rdim(T), "ticks", [10 ** 400, 10 ** 401, 10 ** 402]))
+    add("RangeDimension(linked).ticks", "beyond_double", lambda T: setattr(T["dl"].dimensions[0], "ticks", [1.0, 10 ** 400]))
+    add("RangeDimension(linked).ticks", "whole_numbers_beyond_double", lambda T: setattr(T["dl"].dimensions[0], "ticks", [10 ** 400, 10 ** 401]))
+    add("DataArray.append_range_dimension", "ticks_beyond_double", lambda T: T["d1"].append_range_dimension([1.0, 10 ** 400]))
+    add("DataArray.append_range_dimension", "ticks_whole_numbers_beyond_double", lambda T: T["d1"].append_range_dimension([10 ** 400, 10 ** 401]))
+    add("DataArray.polynom_coefficients", "beyond_double", lambda T: setattr(T["dcal"], "polynom_coefficients", [1.0, 10 ** 400]))
+    add("DataArray.expansion_origin", "beyond_double", lambda T: setattr(T["da"], "expansion_origin", 10 ** 400))
+    add("SampledDimension.sampling_interval", "beyond_double", lambda T: setattr(T["da"].dimensions[0], "sampling_interval", 10 ** 400))
+    add("DataArray.append_sampled_dimension", "interval_beyond_double", lambda T: T["d1"].append_sampled_dimension(10 ** 400))
     df_fault("no_schema")
     df_fault("duplicate_column_names", col_names=["a", "a"], col_dtypes=[int, int])
     add("DataFrame.append_rows", "rows_wrong_length", lambda T: T["df"].append_rows([(1, "a", 0.5, 7)]))
